@@ -104,8 +104,8 @@ class ERoute(Engine):
         b = x.bin
         C = getattr(self.B, self.cls)
         t = C(bin=b) if b else C()
-        if hasattr(x, '_pos'):
-            t._pos = x._pos
+        if kernel.is_stream(x):
+            kernel.set_pos(t, kernel.get_pos(x))
         return t
 
     def _build(self, cfg, cls):
@@ -536,7 +536,7 @@ class ERoute(Engine):
                 keep.append((dop, dx, dt))
         self.derived = keep
         bx, bt = kernel.safe_bin(self.X), kernel.safe_bin(self.T)
-        px, pt = getattr(self.X, '_pos', None), getattr(self.T, '_pos', None)
+        px, pt = (kernel.get_pos(self.X) if kernel.is_stream(self.X) else None), (kernel.get_pos(self.T) if kernel.is_stream(self.T) else None)
         if bx != bt or px != pt:
             if not quiet:
                 mode = 'lsb0' if self.B.options.lsb0 else 'msb0'
@@ -546,8 +546,9 @@ class ERoute(Engine):
             self.T = C(bin=bx) if bx else C()
             if px is not None:
                 if not 0 <= px <= len(bx):
-                    self.X._pos = px = 0
-                self.T._pos = px
+                    px = 0
+                    kernel.set_pos(self.X, px)
+                kernel.set_pos(self.T, px)
         return incs
 
     def simplify(self, ev):
